@@ -1,5 +1,6 @@
 pub mod astwalk;
 pub mod corpus;
+pub mod ddmin;
 pub mod evidence;
 pub mod front;
 pub mod mutate;
